@@ -411,7 +411,10 @@ def plaus_st():
         "bits": st.sampled_from([0, 1, 64, 256, 511, 512, 512, 513, 768, 1024, 1 << 48, (1 << 64) - 1]), "s": sref}))
     pair = st.sampled_from(PAIRGENS).flatmap(lambda e: st.fixed_dictionaries({
         "fn": st.just("$pair"), "mech": st.just(e[0]), "alg": st.just(e[1]), "variant": st.integers(0, 3), "bits": st.sampled_from([0, 8, 256, 511, 512, 512, 513, 1024, 1024, 1 << 48]),
-        "exp": st.sampled_from(["010001", "03", "", "00", "01", "02", "010001" * 20, "ff" * 8]), "wild": st.one_of(st.just(None), bytes_st()),
+        "exp": st.sampled_from(["010001", "03", "", "00", "01", "02", "010001" * 20, "ff" * 8]),
+        # None = valid parameters from the key pool; else wild bytes or EC-parameter shaped values (OID / PrintableString, valid, cut, over-long length)
+        "wild": st.one_of(st.just(None), bytes_st(), st.sampled_from(["130c656477617264733235353139", "130a63757276653235353139", "13", "1300", "13ff", "1381", "130c6564", "13820100",
+                                                                      "0603", "06032b65", "06ff2b6570", "0600", "06082a8648ce3d0301", "3000", "0500", "13847fffffff", "1305" + "00" * 5])),
         "extra_pub": st.lists(entry_st(), max_size=2), "extra_prv": st.lists(entry_st(), max_size=2), "s": sref}))
     # create a key from a valid template with generated mutations, then use it with the mechanisms natural for its class
     USE = {"rsa_pub": [("enc", "CKM_RSA_PKCS"), ("enc", "CKM_RSA_X_509"), ("enc", "CKM_RSA_PKCS_OAEP"), ("verify", "CKM_RSA_PKCS"), ("verify", "CKM_SHA256_RSA_PKCS"),
